@@ -158,7 +158,10 @@ class GenIndex:
                         stack.pop()
                 elif kind == 'L':
                     toks = body.split()
-                    self.labels[toks[0]] = dict(props=toks[1:], line=i, fn=None)
+                    # `~Cxx`: the clause supports property Cxx but demands more than its statement (a fixed growth factor, an
+                    # internal position after the end, ...): when it fails the proof chain of Cxx is broken (undecided), the
+                    # property itself is not shown violated
+                    self.labels[toks[0]] = dict(props=[t.lstrip('~') for t in toks[1:]], internal=[t[1:] for t in toks[1:] if t.startswith('~')], line=i, fn=None)
                     self.label_lines.setdefault(i, []).append(toks[0])
             self.fn_of[i] = stack[-1] if stack else None
             self.mod_of[i] = mod
@@ -263,7 +266,8 @@ def classify(res):
             external_pre = ('precondition' in low) and len(in_gen) <= 1
             safety = ('arithmetic' in low or 'bit shift' in low or 'division' in low or external_pre)
             props = list(idx.fn_props.get(fn, [])) if safety else list(idx.fn_sem.get(fn, []))
-        f = dict(msg=msg, labels=labels, fn=fn, props=props, line=line, rendered=rendered, kind=kind)
+        internal = [p for p in props if labels and all(p in idx.labels[n]['internal'] for n in labels if p in idx.labels[n]['props'])]
+        f = dict(msg=msg, labels=labels, fn=fn, props=props, internal_props=internal, line=line, rendered=rendered, kind=kind)
         # a failed step of the injected proof script (an `assert` in a hint, the precondition of a lemma called from a hint): the
         # proof text no longer fits the code; that is not a violated contract. The function's verdicts are undecided.
         if kind == 'obligation' and not labels and fn and prim:
